@@ -22,10 +22,11 @@ Proof. exact (conj ar_target_hosts_sound_complete ar_target_services_sound_compl
 Print Assumptions C16_fast_path_sound_complete.
 
 (* hence a rule looked up through the index and applied WITHOUT its filter creates, at every target, what
-   evaluating the filter creates - provided the `for` variables do not hide host/service and the `for` set
-   of the rule does not throw at this target (negated signatures of the two recorded findings) *)
+   evaluating the filter creates - provided the `for` set of the rule does not throw at this target (negated
+   signature of the one remaining recorded finding; rules whose `for` variable hides host/service are not
+   indexed any more, AddRule: shadowsTarget) *)
 Theorem C16_fast_path_rule : forall genv r t,
-  ar_no_shadow r = true -> ar_shape_ok r t ->
+  ar_shape_ok r t ->
   (ar_rule_index r <> AIRegular -> ar_instances r (ar_mk_env genv (ar_t_bindings t ++ ar_r_use r)) <> None) ->
   ar_rule_fast_at genv r t = ar_eval_rule false genv r t.
 Proof. exact ar_fast_at_eq. Qed.
@@ -58,22 +59,26 @@ Proof.
 Qed.
 Print Assumptions C16_order_independent.
 
-(* ... and under permutation of the services of a host (one phase: the targets are permuted) *)
-Theorem C16_service_order_independent : forall at_ pre h svcs' post rules,
-  Permutation (ar_h_svcs h) svcs' ->
-  ar_res_perm (ar_run at_ (pre ++ h :: post) rules)
-              (ar_run at_ (pre ++ {| ar_h_name := ar_h_name h; ar_h_fields := ar_h_fields h; ar_h_svcs := svcs' |} :: post) rules).
+(* ... and, through the whole two-phase load, under permutation of the services of every host as well:
+   [inv] -> hosts permuted -> [mid] -> each host's service list permuted (same names, same fields) -> [inv'] *)
+Theorem C16_service_order_independent : forall genv inv mid inv' rules rules',
+  Permutation rules rules' -> Permutation inv mid ->
+  Forall2 (fun h h' => ar_h_name h = ar_h_name h' /\ ar_h_fields h = ar_h_fields h' /\
+                       Permutation (ar_h_svcs h) (ar_h_svcs h')) mid inv' ->
+  ar_res_perm (ar_apply genv inv rules) (ar_apply genv inv' rules') /\
+  ar_res_perm (ar_apply_fast genv inv rules) (ar_apply_fast genv inv' rules').
 Proof.
-  exact (fun at_ pre h svcs' post rules P =>
-           ar_run_perm at_ _ _ rules rules (Permutation_refl rules) (ar_svc_order_equiv pre h svcs' post P)).
+  exact (fun genv inv mid inv' rules rules' Pr Pi S =>
+           conj (ar_load_fully_order_independent (ar_eval_rule false genv) inv mid inv' rules rules' Pr Pi S)
+                (ar_load_fully_order_independent (ar_rule_fast_at genv) inv mid inv' rules rules' Pr Pi S)).
 Qed.
 Print Assumptions C16_service_order_independent.
 
-(* FilterUtility::GetFilterTargets: fast path and evaluation return the same SET of objects, provided no
-   filter variable is named host/service/obj (recorded finding) and names are '!'-free (ConfigItemBuilder
-   enforces that) *)
+(* FilterUtility::GetFilterTargets: fast path and evaluation return the same SET of objects for ALL filters
+   and filter_vars (those naming host/service/obj are evaluated since the fix), provided names are '!'-free
+   (ConfigItemBuilder enforces that) *)
 Theorem C16_api_fast_path : forall genv inv to_svc fvars f,
-  ar_api_premises inv fvars = true ->
+  ar_api_premises inv = true ->
   ar_same_keys (ar_api_fast genv inv to_svc fvars f) (ar_api_plain genv inv to_svc fvars f) = true.
 Proof. exact ar_api_fast_eq. Qed.
 Print Assumptions C16_api_fast_path.
@@ -85,29 +90,32 @@ Theorem C16_oracle_accepts_model : forall genv inv rules wrules,
 Proof. exact ar_oracle_accepts_model. Qed.
 Print Assumptions C16_oracle_accepts_model.
 
-(* the recorded findings, exhibited on the model: without the premises the statements fail *)
-Theorem C16_shadowed_target_variable_refuted :
-  ar_no_shadow ar_w_shadow = false /\
-  option_map (map ar_o_name) (ar_apply_fast ar_w_genv ar_w_invH [ar_w_shadow]) = Some [[72; 33; 114; 48; 97]] /\
+(* the fixed finding: the rule would be recognised, but is not indexed, and both loads agree *)
+Theorem C16_shadowed_target_variable_fixed :
+  ar_shadows_target ar_w_shadow = true /\ ar_rule_index ar_w_shadow = AIRegular /\
+  ar_target_hosts None (ar_r_filter ar_w_shadow) = Some [ar_w_H] /\
+  ar_apply_fast ar_w_genv ar_w_invH [ar_w_shadow] = None /\
   ar_apply ar_w_genv ar_w_invH [ar_w_shadow] = None.
-Proof. exact ar_shadow_refuted. Qed.
-Print Assumptions C16_shadowed_target_variable_refuted.
+Proof. exact ar_shadow_fixed. Qed.
+Print Assumptions C16_shadowed_target_variable_fixed.
 
+(* the remaining recorded finding, exhibited on the model: without the premise the statement fails *)
 Theorem C16_for_error_on_unindexed_target_refuted :
-  ar_no_shadow ar_w_forerr = true /\ ar_for_ok ar_w_genv ar_w_inv ar_w_forerr = false /\
+  ar_shadows_target ar_w_forerr = false /\ ar_for_ok ar_w_genv ar_w_inv ar_w_forerr = false /\
   option_map (map ar_o_name) (ar_apply_fast ar_w_genv ar_w_inv [ar_w_forerr]) = Some [[72; 33; 114; 48; 97]] /\
   ar_apply ar_w_genv ar_w_inv [ar_w_forerr] = None.
 Proof. exact ar_for_error_refuted. Qed.
 Print Assumptions C16_for_error_on_unindexed_target_refuted.
 
-Theorem C16_api_filter_var_named_like_target_refuted :
+Theorem C16_api_filter_var_named_like_target_fixed :
   let f := AEEq ar_w_hostname (AEVar ar_s_host) in
   let fv := [(ar_s_host, AVStr ar_w_h)] in
   ar_api_vars_ok fv = false /\
-  ar_api_fast ar_w_genv ar_w_inv false fv f = Some [(ar_w_h, [])] /\
+  ar_target_hosts (Some fv) f = Some [ar_w_h] /\
+  ar_api_fast ar_w_genv ar_w_inv false fv f = Some [] /\
   ar_api_plain ar_w_genv ar_w_inv false fv f = Some [].
-Proof. exact ar_api_filter_var_refuted. Qed.
-Print Assumptions C16_api_filter_var_named_like_target_refuted.
+Proof. exact ar_api_filter_var_fixed. Qed.
+Print Assumptions C16_api_filter_var_named_like_target_fixed.
 
 (* non-vacuity: a rule the recogniser accepts, whose premises hold, creating a real object *)
 Example C16_nonvacuous :
